@@ -192,15 +192,14 @@ list of four free pages): the frontier stays at 9 -/
 example : (finish 2 { portions := [(3, [5, 4]), (6, [8, 7])], released := [], pop := false, bump := 9 } 1 [1]).map
     (fun r => (r.state.bump, r.exhausted, r.state.portions)) = some (9, false, [(4, [3, 1]), (6, [8, 7])]) := by decide
 
-/-- **Observation (not claimed by any theorem above).**  `commit` does not only write fresh pages: when its
-first `pop` empties the head and the portion below is full, that untouched full portion is handed to
-`encode_head` again by `push_and_encode` (`head_full` is true for it) and is written at its OLD page number with
-its old content.  Here (capacity 2): head page 1 holding {2}, below it the full page 10 holding {12, 11}; one
-page (3) is freed: the pages written are 10 (in place, unchanged) and 2.  The Rust code does the same
-(checked with a unit test on `FreeList::commit`, portions `[(10, full), (1, [2])]`, push `[3]`: written pages
-`[10, 2]`, page 10 byte-identical). -/
+/-- **Repair F18.**  Before the repair `commit` did not only write fresh pages: when its first `pop` emptied the
+head and the portion below was full, that untouched full portion was handed to `encode_head` again by
+`push_and_encode` (`head_full` is true for it) and written at its OLD page number (here, capacity 2: head page 1
+holding {2}, below it the full page 10 holding {12, 11}, page 3 freed: pages written 10 — in place — and 2).
+The harness oracle of `alloc-freelist` reproduced it on the real `FreeList` (C17); with `head_untouched` the only
+page written is the new head 2, and page 10 stays as the previous state has it. -/
 example : (commit 2 { portions := [(1, [2]), (10, [12, 11])], released := [], pop := false, bump := 100 } [3]).map
-    (fun r => (r.written, r.state.portions)) = some ([10, 2], [(2, [1, 3]), (10, [12, 11])]) := by decide
+    (fun r => (r.written, r.state.portions)) = some ([2], [(2, [1, 3]), (10, [12, 11])]) := by decide
 
 /-- bounded evidence for what the conditional theorems assume: on every well-shaped list (capacity 2, 3, 4; see
 `Store/FreeListBounded.lean` for the ranges) `finish` answers `some` and the new list is well-shaped. -/
